@@ -15,7 +15,7 @@ structure TLine where
   content : Str
 
 /-- field kinds: 0 single line · 1 white-space list · 2 copyright statements · 3 license (short name
-+ text) · 4 formatted text · 5 unknown (extra) field -/
++ text) · 4 formatted text · 5 unknown (extra) field · 6 line-based list (Upstream-Contact) -/
 structure Field where
   label : Str            -- the name as written (any case; `Licence` allowed)
   kind : Nat
@@ -86,6 +86,7 @@ def labelOk (f : Field) : Bool :=
    | 2 => normLabel f.label == "copyright".toList
    | 3 => normLabel f.label == "license".toList
    | 4 => ["source", "disclaimer", "comment"].contains (String.ofList (normLabel f.label))
+   | 6 => normLabel f.label == "upstream-contact".toList
    | 5 => !knownLabels.contains (String.ofList (normLabel f.label)) && !(normLabel f.label).contains '_' &&
           !startsWith (normLabel f.label) "unknown".toList
    | _ => false)
@@ -94,19 +95,17 @@ def labelOk (f : Field) : Bool :=
 def singleSpaced (s : Str) : Bool :=
   !s.isEmpty && plain s && trimmed s && (splitChar ' ' s).all (!·.isEmpty) && s.all (fun c => !isSpace c || c == ' ')
 
-/-- the first word is ASCII (whether a run of non-ASCII digits is a year range is left open) -/
-def asciiFirst (s : Str) : Bool := ((splitChar ' ' s).headD []).all fun c => c.toNat < 128
-
 def fieldOk (f : Field) (verbFirst : Bool := false) : Bool :=
   labelOk f && plain f.first && trimmed f.first &&
   (match f.kind with
    | 0 => !f.first.isEmpty && f.conts.isEmpty
    | 1 => singleSpaced f.first && f.conts.all (fun l => l.kind == 0 && singleSpaced l.content && !headP (· == '.') l.content)
-   | 2 => singleSpaced f.first && asciiFirst f.first &&
-          f.conts.all (fun l => l.kind == 0 && singleSpaced l.content && asciiFirst l.content && !headP (· == '.') l.content)
+   | 2 => singleSpaced f.first &&
+          f.conts.all (fun l => l.kind == 0 && singleSpaced l.content && !headP (· == '.') l.content)
    | 3 => !f.first.isEmpty && blockOk f.conts verbFirst
    | 4 => blockOk f.conts verbFirst && (!f.first.isEmpty || !f.conts.isEmpty)
    | 5 => !f.first.isEmpty && f.conts.all (fun l => l.kind == 0 && tlineOk l)
+   | 6 => !f.first.isEmpty && f.conts.all (fun l => l.kind == 0 && tlineOk l)
    | _ => false)
 
 def distinct (p : Para) : Bool :=
@@ -152,7 +151,7 @@ def punct : Str := "!\"#$%&'()*+,-./:;<=>?@[\\]^_`{|}~".toList
 
 /-- a year range: digits and punctuation with at least one digit -/
 def isYearSpec (t : Str) : Bool :=
-  !t.isEmpty && t.all (fun c => isAsciiDigit c || punct.contains c) && t.any isAsciiDigit
+  !t.isEmpty && (t.all isDigitU || (t.all (fun c => isAsciiDigit c || punct.contains c) && t.any isAsciiDigit))
 
 def splitStatement (s : Str) : Option Str × Str :=
   match splitChar ' ' s with
@@ -171,6 +170,7 @@ def expectedFV (f : Field) : FV :=
   | 1 => .wsSep ((splitChar ' ' f.first) ++ f.conts.flatMap fun l => splitChar ' ' l.content)
   | 2 => .copyright ((f.first :: f.conts.map (·.content)).map splitStatement)
   | 3 => .license f.first (if f.conts.isEmpty then none else some (joinNl (f.conts.map decodeLine)))
+  | 6 => .lineSep (f.first :: f.conts.map (·.content))
   | _ => .formatted (some (joinNl ((if f.first.isEmpty then [] else [f.first]) ++ f.conts.map decodeLine)))
 
 /-- the raw value kept for an unknown field: first line and continuation lines as written -/
